@@ -620,3 +620,58 @@ def run(repo: Repo, rep: Report, tier: str) -> None:
     rep.check(bool(hits16) and uses_colours, "C01-R16", "get_wire_color_for_edge answers for a merge id from the edges the merge expanded into",
               "edges with originating_merge_id == source and the same sink, colours from the planned edge colours" if hits16 and uses_colours else
               "no lookup by originating merge: a merge operand falls through to the default `red`", gw.loc())
+
+    # ---------------- R17 --------------------------------------------------------------
+    rep.rule("C01-R17", "a gate that passes a value through outputs the signal it copies: a decider in copy-count mode emits, on its output signal, the count that signal has on the "
+             "input — so wherever the lowerer builds a decider whose output value may be a reference, the output type on every path where it is a reference is that "
+             "reference's own signal type (what the analyzer inferred is a placeholder inside a function body), and no later step renames the output of such a gate")
+    from .util import cguards as _cg17, canon
+    n17 = 0
+    per17: dict[str, int] = {}
+    for f17 in repo.all_funcs():
+        if ".lowering." not in f17.module.name + ".":
+            continue
+        for c17 in calls_in(f17.node):
+            if call_name(c17) not in ("decider", "decider_multi") or "ir_builder" not in norm(c17.func):
+                continue
+            kw17 = {k.arg: k.value for k in c17.keywords}
+            cp17 = kw17.get("copy_count_from_input")
+            ov17 = kw17.get("output_value") or (c17.args[3] if len(c17.args) > 3 else None)
+            ot17 = kw17.get("output_type") or (c17.args[4] if len(c17.args) > 4 else None)
+            if cp17 is None or (isinstance(cp17, ast.Constant) and cp17.value is False) or ov17 is None or ot17 is None or isinstance(ov17, ast.Constant):
+                continue
+            if not isinstance(ot17, ast.Name) or not isinstance(ov17, ast.Name):
+                raise AnalysisError(f"C01-R17: {f17.short}: output type/value of a copy-count decider is not a local ({norm(ot17)}, {norm(ov17)})")
+            cf17 = canon(f17)
+            ovt = cf17.text(ov17, c17) + ".signal_type"
+            ovn = cf17.text(ov17, c17)
+            gf17 = __import__("fv.cfg", fromlist=["CFG"]).CFG(f17.node)
+            pm17 = parents_map(f17.node)
+            call_st = c17
+            while not isinstance(call_st, ast.stmt):
+                call_st = pm17[call_st]
+            defs17 = [x for x in walk_local(f17.node) if isinstance(x, ast.Assign) and isinstance(x.targets[0], ast.Name) and x.targets[0].id == ot17.id]
+            for st in defs17:
+                # only a definition that is still the variable's value when the gate is built
+                if not gf17.reaches_avoiding(st, {id(call_st)}, lambda n_, st=st: n_ is not st and any(n_ is d for d in defs17), start_inclusive=False):
+                    continue
+                gs = _cg17(f17, st)
+                if any((g == f"isinstance({ovn}, SignalRef)" and not pol) or (g == f"isinstance({ovn}, int)" and pol) for g, pol in gs):
+                    continue  # the value is a literal on this path: constant mode
+                n17 += 1
+                per17[f17.short] = per17.get(f17.short, 0) + 1
+                vt = cf17.text(st.value, st)
+                same = vt == ovt or any((not pol) and f"{ovt} != {vt}" in g for g, pol in gs)
+                rep.check(same, "C01-R17", f"{f17.short}: output type #{per17[f17.short]} of the pass-through gate is the passed signal's type", vt[:80] if same else
+                          f"output type `{vt[:70]}` on a path where the value is a reference: the gate copies the input count of *that* signal, which is not the one the value arrives on", f17.loc(st))
+    rep.floor("C01-R17", "output-type assignments of pass-through gates", n17, 4)
+    pf17 = repo.func("ExpressionLowerer._try_fold_projection_into_source")
+    retype17 = [s for s in walk_local(pf17.node) if isinstance(s, ast.Assign) and isinstance(s.targets[0], ast.Attribute) and s.targets[0].attr == "output_type"]
+    if not retype17:
+        raise AnalysisError("C01-R17: retyping store not found in _try_fold_projection_into_source")
+    g17 = __import__("fv.cfg", fromlist=["CFG"]).CFG(pf17.node)
+    declines = [n for n in walk_local(pf17.node) if isinstance(n, ast.If) and "copy_count_from_input" in norm(n.test) and "IRDecider" in norm(n.test)
+                and any(isinstance(x, ast.Return) and (x.value is None or (isinstance(x.value, ast.Constant) and x.value.value is None)) for x in n.body)]
+    ok17 = any(g17.dominates(d, retype17[0]) for d in declines)
+    rep.check(ok17, "C01-R17", "_try_fold_projection_into_source declines for a pass-through gate", "`return None` for a copy-count decider dominates the retyping store" if ok17 else
+              "`((a > 0) : b) | \"signal-O\"` renames the gate's output to signal-O while it still copies the input count of signal-O (nothing)", pf17.loc(retype17[0]))
